@@ -27,8 +27,8 @@ EXPLORE = {
     "thorough": {
         "hg": [(3, 2, True, False, None), (2, 2, True, True, None)],
         "dir": [(3, 1, True, False, None), (2, 2, True, True, None)],
-        "temp": [(3, 1, False, False, [0, 1]), (2, 2, True, True, [0, 1])],
-        "mux": [(3, 1, False, False, ["L1", "L2"]), (2, 2, True, True, ["L1", "L2"])],
+        "temp": [(3, 1, False, False, [0, 1]), (2, 1, True, True, [0, 1], ("1",))],
+        "mux": [(3, 1, False, False, ["L1", "L2"]), (2, 1, True, True, ["L1", "L2"], ("1",))],
     },
 }
 
@@ -43,11 +43,15 @@ def explore(res, kind, tier, module="MC_HGX", invariants=INV, configs=None):
     runs = []
     if configs is None:
         configs = []
-        for (n, maxw, batches, metaops, xs) in EXPLORE[tier][kind]:
+        for entry in EXPLORE[tier][kind]:
+            (n, maxw, batches, metaops, xs) = entry[:5]
             for weighted in (True, False):
                 if not weighted and maxw > 1 and tier == "quick" and not metaops:
                     continue
-                configs.append(dict(n=n, maxw=maxw, batches=batches, metaops=metaops, xs=xs, weighted=weighted))
+                cfg_ = dict(n=n, maxw=maxw, batches=batches, metaops=metaops, xs=xs, weighted=weighted)
+                if len(entry) > 5:
+                    cfg_["mvals"] = entry[5]
+                configs.append(cfg_)
     for cf_ in configs:
         cf_ = dict(cf_)
         weighted = cf_.pop("weighted", True)
